@@ -473,11 +473,15 @@ func (db *DB) setEntry(data *kv.Entry) error {
 
 	// Delegate to the commit pipeline to leverage batching and VLog offloading.
 	data.IncrRef()
-	if err := db.batchSet([]*kv.Entry{data}); err != nil {
+	req, err := db.sendToWriteCh([]*kv.Entry{data}, true)
+	if err != nil {
+		// The request never took ownership of the extra reference: release it here.
 		data.DecrRef()
 		return err
 	}
-	return nil
+	// From here on the request owns that reference and releases it in Wait, also when the
+	// commit pipeline reports an error (releasing it again made the call panic).
+	return req.Wait()
 }
 
 // SetVersionedEntry writes a value to the specified column family using the
@@ -505,11 +509,13 @@ func (db *DB) SetVersionedEntry(cf kv.ColumnFamily, key []byte, version uint64, 
 
 	// Delegate to the commit pipeline to leverage batching and VLog offloading.
 	entry.IncrRef()
-	if err := db.batchSet([]*kv.Entry{entry}); err != nil {
+	req, err := db.sendToWriteCh([]*kv.Entry{entry}, true)
+	if err != nil {
 		entry.DecrRef()
 		return err
 	}
-	return nil
+	// The request owns the extra reference now and releases it in Wait, error or not.
+	return req.Wait()
 }
 
 // DeleteVersionedEntry marks the specified version as deleted by writing a
